@@ -499,7 +499,7 @@ class Sequence:
         positions = list(self._data.keys())
         if positions == []:  # case of empty Sequence
             positions = [1]
-        if not positions == list(range(1, len(positions) + 1)):
+        if not sorted(positions) == list(range(1, len(positions) + 1)):
             failmssg = (
                 "checkConsistency failed: inconsistent sequence"
                 "positions. Must be 1, 2, 3, ..."
